@@ -83,8 +83,8 @@ fn set_mode(e: &mut BinEncoder<'_>, m: Mode) {
     };
 }
 
-pub fn wire_case_json(labels: &Labels, offset: usize, s: Scen, m: Mode) -> Value {
-    json!({"family": "wire", "labels_hex": labels_json(labels), "offset": offset, "scenario": scen_name(s), "mode": mode_name(m),
+pub fn wire_case_json(labels: &Labels, offset: usize, s: Scen, m: Mode, rel: bool) -> Value {
+    json!({"family": "wire", "labels_hex": labels_json(labels), "offset": offset, "scenario": scen_name(s), "mode": mode_name(m), "relative": rel,
         "text": vref::name::present_any(&RefName::new(labels.clone(), true))})
 }
 
@@ -132,6 +132,7 @@ fn judge_emitted(
     end: usize,
     orig: &Labels,
     h: &Name,
+    rel: bool,
     mode: Mode,
     scene: &str,
     l: &mut Local,
@@ -189,7 +190,14 @@ fn judge_emitted(
                 l.violation(&format!("wire:roundtrip-not-absolute:{who}:{scene}"), "decoded name is not absolute", case);
                 return false;
             }
-            if mode != Mode::Lowercase && !n.eq_case(h) {
+            if rel {
+                // a relative name has no wire form of its own: the labels must survive, the decoded
+                // name is absolute by construction
+                if mode != Mode::Lowercase && !n.eq_ignore_root_case(h) {
+                    l.violation(&format!("wire:relative:roundtrip-labels-differ:{who}:{scene}"), "eq_ignore_root_case(decoded, original) is false", case);
+                    return false;
+                }
+            } else if mode != Mode::Lowercase && !n.eq_case(h) {
                 l.violation(&format!("wire:roundtrip-eq_case-false:{who}:{scene}"), "eq_case(decoded, original) is false", case);
                 return false;
             }
@@ -203,7 +211,7 @@ fn judge_emitted(
 }
 
 /// One (name, offset, scenario, mode) case on the real encoder/decoder.
-pub fn run_wire_case(labels: &Labels, h: &Name, offset: usize, s: Scen, mode: Mode, buf: &mut Vec<u8>, l: &mut Local) {
+pub fn run_wire_case(labels: &Labels, h: &Name, rel: bool, offset: usize, s: Scen, mode: Mode, buf: &mut Vec<u8>, l: &mut Local) {
     let other = match s {
         Scen::Alone => None,
         _ => match other_labels(labels, s) {
@@ -235,8 +243,11 @@ pub fn run_wire_case(labels: &Labels, h: &Name, offset: usize, s: Scen, mode: Mo
         }
     };
     l.eval();
-    let scene = format!("{}:{}:off-{:x}", mode_name(mode), scen_name(s), offset);
-    let case = || wire_case_json(labels, offset, s, mode);
+    // abstract scene for keys: mode, scenario without near/far, offset class (the case JSON keeps
+    // the exact scenario and offset)
+    let short = scen_name(s).replace("-near", "").replace("-far", "");
+    let scene = format!("{}{}:{}:{}", if rel { "relative:" } else { "" }, mode_name(mode), short, if offset >= 0x3ffe { "off-high" } else { "off-low" });
+    let case = || wire_case_json(labels, offset, s, mode, rel);
     buf.truncate(start);
     buf.resize(start, 0);
     // positions: (prior_pos, prior_end), (pos, end), (fol_pos, fol_end)
@@ -280,11 +291,11 @@ pub fn run_wire_case(labels: &Labels, h: &Name, offset: usize, s: Scen, mode: Mo
         l.violation(&format!("wire:prior-length:{scene}"), &format!("name starts at {}, planned {}", p[2], offset), case);
         return;
     }
-    let mut ok = judge_emitted("name", buf, p[2], p[3], labels, h, mode, &scene, l, &case);
+    let mut ok = judge_emitted("name", buf, p[2], p[3], labels, h, rel, mode, &scene, l, &case);
     if let (Some(o), Some(oh)) = (&other, &other_h) {
         match s {
-            Scen::PriorNear(_) | Scen::PriorFar(_) => ok &= judge_emitted("prior", buf, p[0], p[1], o, oh, mode, &scene, l, &case),
-            Scen::Follow(_) => ok &= judge_emitted("follower", buf, p[4], p[5], o, oh, mode, &scene, l, &case),
+            Scen::PriorNear(_) | Scen::PriorFar(_) => ok &= judge_emitted("prior", buf, p[0], p[1], o, oh, false, mode, &scene, l, &case),
+            Scen::Follow(_) => ok &= judge_emitted("follower", buf, p[4], p[5], o, oh, false, mode, &scene, l, &case),
             Scen::Alone => {}
         }
     }
@@ -292,6 +303,9 @@ pub fn run_wire_case(labels: &Labels, h: &Name, offset: usize, s: Scen, mode: Mo
         let plain = wire_len(labels);
         let fol_plain = olen;
         let ptr = p[3] - p[2] < plain || (matches!(s, Scen::Follow(_)) && p[5] - p[4] < fol_plain);
+        if rel {
+            l.outcome("wire:ok:relative-name");
+        }
         if ptr {
             l.outcome(if offset >= 0x3ffe { "wire:ok:pointer-emitted-high-offset" } else { "wire:ok:pointer-emitted" });
             l.nontrivial(fnv64(&buf[start..]) ^ (offset as u64).wrapping_mul(0x9e3779b97f4a7c15) ^ fnv64(scene.as_bytes()));
@@ -306,7 +320,8 @@ pub fn run_wire_case(labels: &Labels, h: &Name, offset: usize, s: Scen, mode: Mo
 
 pub fn replay_wire(case: &Value, l: &mut Local) {
     let labels = labels_from_json(&case["labels_hex"]);
-    let Ok(h) = build(&RefName::new(labels.clone(), true)) else { return };
+    let rel = case["relative"].as_bool().unwrap_or(false);
+    let Ok(h) = build(&RefName::new(labels.clone(), !rel)) else { return };
     let offset = case["offset"].as_u64().unwrap_or(0) as usize;
     let Some(s) = scen_from(case["scenario"].as_str().unwrap_or("alone")) else { return };
     let mode = match case["mode"].as_str() {
@@ -315,7 +330,7 @@ pub fn replay_wire(case: &Value, l: &mut Local) {
         _ => Mode::Compressed,
     };
     let mut buf = vec![];
-    run_wire_case(&labels, &h, offset, s, mode, &mut buf, l);
+    run_wire_case(&labels, &h, rel, offset, s, mode, &mut buf, l);
 }
 
 // ------------------------------------------------------------------------------------------
@@ -413,7 +428,7 @@ pub fn run_refbytes_case(labels: &Labels, h: &Name, offset: usize, f: Form, buf:
     let end = buf.len();
     buf.extend_from_slice(&[0xaa, 0xbb]); // something after the name
     l.eval();
-    let scene = format!("{}:off-{:x}", form_class(f), offset);
+    let scene = format!("{}:{}", form_class(f), if offset >= 0x3ffe { "off-high" } else { "off-low" });
     let case = || {
         json!({"family": "refbytes", "labels_hex": labels_json(labels), "offset": offset, "form": form_name(f),
             "name_bytes": hex::enc(&name_bytes)})
